@@ -263,11 +263,14 @@ R["C19"] = {"harnesses": [
 
 R["C20"] = {"harnesses": [H("H_C20_Main", [{"maxfiles": 2}], [{"maxfiles": 3}], ["C20/all-good", "C20/some-bad", "C20/end"],
     "the real main() of v5/cmd/json-patch with 0..maxfiles -p files, each one of: patch that applies (3 variants with symbolic leaves), patch that fails to apply (2), malformed (3), missing file, directory - in every order; stdin one of 6 forms of a document with two symbolic string bytes (any printable ASCII, so % is included): compact, surrounded by whitespace, whitespace inside, followed by a second document, followed by garbage, truncated (the last three only with at least one patch file); expected output = left fold of the library's own DecodePatch+Apply",
-    target="cmd")],
+    target="cmd"),
+    H("H_C20_Main", [{"maxfiles": 2}], [{"maxfiles": 3}], ["C20/all-good", "C20/some-bad", "C20/end"],
+      "the root cmd/json-patch (staged with the legacy root package it imports): the same scenario family; expected output = left fold of the root package's own DecodePatch+Apply; confirmed with the binary built from the staged module",
+      target="cmdlegacy")],
     "anchors": ["cmd/json-patch.main", "(*github.com/evanphx/json-patch/v5/cmd/json-patch.FileFlag).UnmarshalFlag"],
     "assumptions": ["environment stubs (harness/incmd): go-flags' own argument parsing is replaced by a stub that calls the real FileFlag.UnmarshalFlag for each -p value in order; os.Stat, filepath.Abs, ReadFile, os.Open answer from the scenario; os.Stdin/Stdout/Stderr are three handles whose Read/Write/WriteString/ReadFrom/WriteTo are served from the scenario whoever calls them (so the real io.ReadAll, bufio, json.Decoder or io.Copy run on top of them); log.Fatal*/os.Exit record the exit status and end the run, log.Print* write to stderr; fmt.Print/Println/Printf/Fprint* implement %s, %v, %d and %% for strings, byte slices, ints and errors and render a verb without operand as Go does (anything else renders as '?' and ends unconfirmed)",
                     "every reported violation and a sample of passing paths are re-run with the REAL binary (go build ./cmd/json-patch from the working tree) on real files"],
-    "outside_bound": ["more than 3 files", "go-flags' argument parsing, the operating system, process exit plumbing", "the root cmd/json-patch (identical source apart from the import path)"]}
+    "outside_bound": ["more than 3 files", "go-flags' argument parsing, the operating system, process exit plumbing"]}
 
 R["C09"] = {"harnesses": [
     H("H_History", [{"len": 1}], [{"len": 1}, {"len": 2}], ["history/B-succeeds", "history/end"],
